@@ -222,6 +222,17 @@ def guarded(fx, f, block, root, maxv, guards):
     return False
 
 
+def copy_root_local(f, l, depth=0):
+    """follow single-definition copies / moves / widening casts back to the first local"""
+    d = f.defs().get(l, [])
+    if depth < 8 and len(d) == 1 and d[0][1] != "T":
+        rv = d[0][2]
+        op = rv[1] if rv[0] == "use" else (rv[2] if rv[0] == "cast" else None)
+        if op and op[0] in ("c", "m") and not op[1][1]:
+            return copy_root_local(f, op[1][0], depth + 1)
+    return l
+
+
 def origin_call(f, local, depth=0):
     """the call terminator producing `local`, seen through copies, widening casts and `?`"""
     d = f.defs().get(local, [])
